@@ -114,6 +114,7 @@ def run_group(gi, tier, hs, work, overlay):
                    "samples": [], "functions_encoded": [], "intrinsics": [], "stubs": [], "assumptions": [],
                    "exhaustive": False, "solver_time_s": 0, "queries_sat": 0, "queries_unsat": 0, "queries_unknown": 0}
         res["harness"] = h["name"]
+        res["display"] = h["name"] + ("#" + h["variant"] if h.get("variant") else "")
         res["proc_wall_s"] = res.get("wall_s", 0)
         res["params"] = ts[i].get("params", {})
         res["alloc_limit"] = ts[i].get("alloc_limit", 0)
@@ -232,7 +233,7 @@ def main():
     overlay = make_overlay(work)
     hs = [h for h in spec["harnesses"] if tier in h.get("tiers", ("quick", "thorough"))]
     if args.only:
-        hs = [h for h in hs if args.only in h["name"]]
+        hs = [h for h in hs if args.only in h["name"] + "#" + h.get("variant", "")]
 
     # symbolic runs (a few processes, each loading the SSA once) in parallel with the native runner build
     ngroups = max(1, min(args.jobs, len(hs)))
@@ -270,7 +271,7 @@ def main():
             if any(k.startswith("rand.") for k in v["inputs"]):
                 case["repeat"] = 200000  # directed repetition until the draws line up
             hsh = hashlib.sha256(json.dumps([case, v["label"], v["site"]], sort_keys=True).encode()).hexdigest()[:12]
-            rpath = os.path.join(ROOT, "replays", pid, f"{res['harness']}-{hsh}.json")
+            rpath = os.path.join(ROOT, "replays", pid, f"{res['display'].replace('#', '_')}-{hsh}.json")
             json.dump({"property": pid, "harness": res["harness"], "label": v["label"], "kind": v["kind"], "site": v["site"],
                        "detail": v.get("detail", ""), "stack": v.get("stack", []), "case": case}, open(rpath, "w"), indent=1)
             if k is not None:
@@ -291,9 +292,9 @@ def main():
                 else:
                     ok, detail = False, "harness has no native twin"
             if ok:
-                violations.append((res["harness"], v, rpath, detail))
+                violations.append((res["display"], v, rpath, detail))
             else:
-                reasons.append(f"counterexample of {res['harness']} [{v['label']} at {v['site']}] did not reproduce natively ({detail}); replay={rpath}")
+                reasons.append(f"counterexample of {res['display']} [{v['label']} at {v['site']}] did not reproduce natively ({detail}); replay={rpath}")
 
     # ---- translator validation: passing paths replayed against the real build ----
     validated = 0
@@ -304,13 +305,13 @@ def main():
                 continue
             cases = [{"harness": res["harness"], "inputs": tr["inputs"], "choices": tr.get("choices") or [],
                       "params": res.get("params", {})} for tr in res["traces"]]
-            nres, err = run_native(runner, cases, work, "val-" + res["harness"])
+            nres, err = run_native(runner, cases, work, "val-" + res["display"].replace("#", "_"))
             if nres is None:
                 reasons.append(f"path-replay validation of {res['harness']} crashed: {(err or '')[-300:]}")
                 continue
             for tr, nr in zip(res["traces"], nres):
                 if nr.get("panic") or nr.get("failures") or nr.get("assume_violated") or (nr.get("trace") or []) != (tr["log"] or []):
-                    mismatches.append({"harness": res["harness"], "inputs": tr["inputs"], "symbolic": tr["log"],
+                    mismatches.append({"harness": res["display"], "inputs": tr["inputs"], "symbolic": tr["log"],
                                        "native": nr.get("trace"), "panic": nr.get("panic"), "failures": nr.get("failures"),
                                        "assume": nr.get("assume_violated")})
                 else:
@@ -323,19 +324,19 @@ def main():
     # ---- inconclusive reasons, witnesses ---------------------------------------------
     for h, res in zip(hs, results):
         for r in res["inconclusive"]:
-            reasons.append(f"{res['harness']}: {r}")
+            reasons.append(f"{res['display']}: {r}")
         for c in h.get("covers", []):
             if res.get("covers", {}).get(c, 0) == 0 and not any(c in (kk.get("blocks_covers") or []) for kk, _, _ in known_hits):
-                reasons.append(f"{res['harness']}: reachability witness '{c}' not hit")
+                reasons.append(f"{res['display']}: reachability witness '{c}' not hit")
         if res.get("ok_paths", 0) == 0 and not res["violations"] and not res["inconclusive"]:
-            reasons.append(f"{res['harness']}: no path completed (vacuous harness)")
+            reasons.append(f"{res['display']}: no path completed (vacuous harness)")
 
     wall = time.time() - t0
     # ---- evidence -----------------------------------------------------------------------
     samples = []
     for res in results:
         for s in (res.get("samples") or [])[:2]:
-            samples.append({"harness": res["harness"], "inputs": s["inputs"], "choices": s.get("choices"), "trace": s["log"]})
+            samples.append({"harness": res["display"], "inputs": s["inputs"], "choices": s.get("choices"), "trace": s["log"]})
     if not samples:
         for res in results:
             for v in res["violations"][:1]:
@@ -354,7 +355,7 @@ def main():
             "samples": samples or [{"note": "no completed path"}],
             "exhaustive": all(r.get("exhaustive") for r in results) and not reasons,
             "rule": "a state is one completed symbolic path (all data symbolic along it); a transition is one explored control decision; every decision's feasibility and every assertion / implicit Go run-time check is an SMT query",
-            "harnesses": [{"name": r["harness"], "paths": r["paths"], "ok_paths": r.get("ok_paths"), "decisions": r["decisions"],
+            "harnesses": [{"name": r["display"], "paths": r["paths"], "ok_paths": r.get("ok_paths"), "decisions": r["decisions"],
                            "queries": r["queries"], "sat": r.get("queries_sat"), "unsat": r.get("queries_unsat"),
                            "unknown": r.get("queries_unknown"), "solver_time_s": round(r.get("solver_time_s", 0), 2),
                            "wall_s": round(r.get("proc_wall_s", 0), 1), "params": r.get("params"), "unwind": r.get("unwind"),
@@ -385,7 +386,7 @@ def main():
     validate_evidence(os.path.join(ROOT, "evidence", pid + ".json"))
 
     for r in results:
-        log(f"  {r['harness']}: paths={r['paths']} ok={r.get('ok_paths')} decisions={r['decisions']} queries={r['queries']} "
+        log(f"  {r['display']}: paths={r['paths']} ok={r.get('ok_paths')} decisions={r['decisions']} queries={r['queries']} "
             f"solver={r.get('solver_time_s', 0):.1f}s wall={r.get('proc_wall_s', 0):.1f}s violations={len(r['violations'])} inconclusive={len(r['inconclusive'])}")
     log(f"  traces validated natively: {validated}; wall {wall:.1f}s")
     seen = set()
